@@ -12,15 +12,17 @@ TIMEOUT = {"quick": 600, "thorough": 3000}
 THREADS = {"quick": 1, "thorough": 1}
 RULE = (
     "per case: one generated decay card (3- or 4-body, integer and half-integer spins, parities, 1-3 topologies with 1-2 "
-    "resonances per slot, per-decay options, several resonance models, identical-particle declaration in one class) x "
+    "resonances per slot, per-decay options, several resonance models; identical-particle classes: one pair, two families, three "
+    "identical particles; one class with the other registered two-body decay models helicity_full / helicity_parity / gls-bf) x "
     "parameters by name x 40 events from the independent generator (bulk, near-threshold, collinear) x transformations "
     "{rotation, boost(0.1..0.9), rotation*boost*rotation, boost 1e-8, boost 0.99, inversion where the property claims it, "
-    "identical-particle exchange}.  non-trivial = card has a spinning particle or >=2 chains and median density>0; "
+    "identical-particle exchange of every declared family separately and together, transpositions and cyclic exchanges}.  non-trivial = card has a spinning particle or >=2 chains and median density>0; "
     "distinct = card structure key (spins, parities, trees, models, options)."
 )
 ASSUMPTIONS = [
     "unpolarised parent (default full spins) only, as the property states",
-    "inversion judged only for 3-body cards and for cards with p_break=False at every vertex",
+    "inversion judged only for 3-body cards and for cards with p_break=False at every vertex (helicity_full vertices count as parity violating)",
+    "the decay model helicity_full-bf is not generated: it raises InvalidArgumentError inside mixed-model chains (declines, no value to judge)",
     "tolerance |df| <= 3e-6*(f + 1e-2*median f) (3e-5 for gamma>5; observed floor 5e-8 from beta=acos(1-k*eps) in SU2M.get_euler_angle for identity alignment rotations); events whose smallest two-body breakup momentum is < 1e-4 of its parent mass are skipped as ill-conditioned",
     "CPU, eager evaluation",
     "align_ref=center_mass (reference = canonical boost to the rest frame of each final particle) is exercised for massive final particles only: a massless particle has no rest frame",
